@@ -133,6 +133,11 @@ func (g *UpdateGen) Gen(d bson.D) Update {
 				add("$push", p, elem())
 			case 1, 2:
 				spec := bson.D{{Key: "$each", Value: bson.A{elem(), elem()}}}
+				if r.Chance(1, 4) {
+					// the re-sort / trim idiom: nothing is pushed, the modifiers
+					// still apply to the array
+					spec = bson.D{{Key: "$each", Value: bson.A{}}}
+				}
 				if r.Bool() {
 					spec = append(spec, bson.E{Key: "$position", Value: fw.Pick(r, []interface{}{int32(0), int32(1), int32(-1), int64(2), int32(-2), int32(100), int32(-100), 1.0})})
 				}
@@ -244,7 +249,11 @@ func (g *UpdateGen) Gen(d bson.D) Update {
 			case 1:
 				add("$mul", p, g.numOperand())
 			case 2:
-				add("$push", p, fg.AnyOperand())
+				if r.Chance(1, 4) {
+					add("$push", p, bson.D{{Key: "$each", Value: bson.A{}}}) // creates the empty array
+				} else {
+					add("$push", p, fg.AnyOperand())
+				}
 			case 3:
 				add("$addToSet", p, fg.AnyOperand())
 			case 4:
